@@ -75,6 +75,11 @@ def eval_expr(e: ast.expr, env: dict[str, Any], oracle: Oracle | None = None) ->
         return True
     if isinstance(e, ast.IfExp):
         return eval_expr(e.body if eval_expr(e.test, env, oracle) else e.orelse, env, oracle)
+    if isinstance(e, ast.Dict) and all(k is not None for k in e.keys):
+        return {eval_expr(k, env, oracle): eval_expr(v, env, oracle) for k, v in zip(e.keys, e.values)}
+    if isinstance(e, (ast.Tuple, ast.List)):
+        vals = [eval_expr(x, env, oracle) for x in e.elts]
+        return tuple(vals) if isinstance(e, ast.Tuple) else vals
     if isinstance(e, ast.NamedExpr) and isinstance(e.target, ast.Name):
         env[e.target.id] = eval_expr(e.value, env, oracle)
         return env[e.target.id]
